@@ -31,8 +31,12 @@ func Copy(source, dest string) error {
 	defer out.Close()
 	_, err = io.Copy(out, in)
 	cerr := out.Close()
-	if err != nil {
-		return err
+	if err == nil {
+		err = cerr
 	}
-	return cerr
+	if err != nil {
+		/* don't leave half a file behind */
+		os.Remove(dest)
+	}
+	return err
 }
